@@ -233,6 +233,16 @@ def origin(body, defs, place, depth=0, seen=None, through_calls=TRANSPARENT_CALL
             r, p = origin(body, defs, rv["p"], depth + 1, seen, through_calls)
             return (r, p + ["discr"] + proj)
         elif k == "agg":
+            # a field read out of a tuple built in place is the corresponding operand: (a, b).0 == a
+            if rv.get("ak") == "tuple" and len(place) > 1 and isinstance(place[1], list) and place[1] and place[1][0] == "f" \
+                    and isinstance(place[1][1], int) and place[1][1] < len(rv["ops"]):
+                o = rv["ops"][place[1][1]]
+                if is_place_op(o):
+                    r, p = origin(body, defs, o[1], depth + 1, seen, through_calls)
+                    return (r, p + proj_str(place[2:]))
+                c = op_const(o)
+                if c is not None:
+                    return ("const:" + str(c.get("text", c.get("fn", ""))), proj_str(place[2:]))
             return ("agg:%s" % (rv.get("adt") or rv.get("ak")), proj)
         return ("local%d" % local, proj)
     if kind == "call":
@@ -402,3 +412,84 @@ def loop_depth(body, bb, loops=None):
     loops = loops if loops is not None else natural_loops(body)
     heads = {h for h, nodes in loops if bb in nodes}
     return len(heads)
+
+
+def bool_sim(body, atom_value, max_states=20000):
+    """Which blocks can be reached when the comparison statements listed in `atom_value` ({(block, statement index): bool}) have
+    the given outcomes?  A tiny path-sensitive interpreter over the boolean part of the MIR: it tracks locals holding known
+    booleans through copies, `!`, `&` / `|` and the control flow of `&&` / `||`, follows a `switchInt` whose operand is known
+    and explores both ways otherwise.  Returns the set of reachable block indices (normal edges only)."""
+    blocks = body.blocks
+    reached = set()
+    seen = set()
+    work = [(0, ())]
+    n = 0
+    while work and n < max_states:
+        n += 1
+        bi, envt = work.pop()
+        key = (bi, envt)
+        if key in seen:
+            continue
+        seen.add(key)
+        reached.add(bi)
+        env = dict(envt)
+        blk = blocks[bi]
+        for si, st in enumerate(blk["stmts"]):
+            if st["k"] != "assign" or len(st["p"]) != 1:
+                if st["k"] == "assign":
+                    env.pop(st["p"][0], None)
+                continue
+            dst = st["p"][0]
+            rv = st["rv"]
+            val = None
+            if (bi, si) in atom_value:
+                val = atom_value[(bi, si)]
+            elif rv["k"] == "use":
+                c = op_const(rv["o"])
+                if c is not None and c.get("v") in (0, 1, True, False) and "bool" in str(c.get("ty", "bool")):
+                    val = bool(c.get("v"))
+                elif is_place_op(rv["o"]) and len(rv["o"][1]) == 1:
+                    val = env.get(rv["o"][1][0])
+            elif rv["k"] == "un" and rv.get("op") in ("Not", "!"):
+                o = rv.get("o") or rv.get("a")
+                if is_place_op(o) and len(o[1]) == 1 and o[1][0] in env:
+                    val = not env[o[1][0]]
+            elif rv["k"] == "bin" and rv.get("op") in ("BitAnd", "BitOr"):
+                vs = []
+                for o in (rv["a"], rv["b"]):
+                    c = op_const(o)
+                    if c is not None and c.get("v") in (0, 1, True, False):
+                        vs.append(bool(c.get("v")))
+                    elif is_place_op(o) and len(o[1]) == 1:
+                        vs.append(env.get(o[1][0]))
+                    else:
+                        vs.append(None)
+                if rv["op"] == "BitAnd":
+                    val = False if False in vs else (True if vs == [True, True] else None)
+                else:
+                    val = True if True in vs else (False if vs == [False, False] else None)
+            if val is None:
+                env.pop(dst, None)
+            else:
+                env[dst] = val
+        t = blk["term"]
+        nxt = []
+        if t["k"] == "switch":
+            o = t["o"]
+            known = env.get(o[1][0]) if is_place_op(o) and len(o[1]) == 1 else None
+            if known is None:
+                nxt = [x for _, x in t["targets"]] + [t["otherwise"]]
+            else:
+                tg = dict((v, x) for v, x in t["targets"])
+                nxt = [tg[int(known)]] if int(known) in tg else [t["otherwise"]]
+        elif t["k"] == "call":
+            if t.get("dest") and len(t["dest"]) == 1:
+                env.pop(t["dest"][0], None)
+            nxt = [x for x in succs(blk)][:1] if t.get("target") is None else [t["target"]]
+            nxt = [x for x in succs(blk) if not blocks[x].get("cleanup")]
+        else:
+            nxt = [x for x in succs(blk) if not blocks[x].get("cleanup")]
+        frozen = tuple(sorted(env.items()))
+        for x in nxt:
+            work.append((x, frozen))
+    return reached
